@@ -15,7 +15,7 @@ import vlib
 from a9_gfp2 import Fp2, Mont, hx
 
 HARNESS = os.path.join(vlib.ROOT, "tools", "harness")
-K_SMALL = "ideal_to_isogeny:small-prime-norm:fixed_degree_isogeny-precondition-violated:crash"
+K_SMALL = "ideal_to_isogeny:small-prime-norm:explicit-failure"
 
 
 def sint(s):
@@ -146,7 +146,11 @@ def isogenies(ctx, lvl, exe, nideals):
     F = Fp2(p)
     rng = ctx.rng.fork("c13iso%d" % lvl)
     bits_p = p.bit_length()
-    FDI = {1: (20, 132), 3: (24, 198), 5: (22, 259)}[lvl]      # L*_fdi_index_range (SqiProps.C13)
+    ROWS = {1: 134, 3: 198, 5: 260}[lvl]
+
+    def fdi_rejects(b):          # SqiModel.IdealKernel.fdiGuardRejects with length = bits(p) + 15 − b (theorems fdi_guard_text / fdi_guard_sound)
+        length = bits_p + 15 - b
+        return length + 2 > fmax or fmax - length >= ROWS or b > length
     rc, o0, err = vlib.run_c([exe], ["w0"])
     out = ["ok", o0[0]]
     ops = ["seed", "w0"]
@@ -159,12 +163,12 @@ def isogenies(ctx, lvl, exe, nideals):
             k = len(o)
             # predicted by the index model? (u or v of find_uv outside the table-derived range of fixed_degree_isogeny)
             fu = o[k - 1].split() if k >= 1 and one[k - 1].startswith("finduv") else None
-            pred = bool(fu and fu[0] == "1" and all(sint(x) > 0 for x in fu[1:3]) and any(not (FDI[0] <= sint(x).bit_length() <= FDI[1]) for x in fu[1:3]))
+            pred = False
             ctx.case("L%d:ideal:%dbits:crash" % (lvl, bits))
             rep = dict(level=lvl, ops=one[:k + 1], last_output=(o[k - 1][:300] if k else ""), stderr=err[-800:], rc=rc,
                        how="drv_id2iso level %d: feed the ops (deterministic DRBG); theorem L1_fdi_index_negation predicts the out-of-range strategy row" % lvl)
             if pred:
-                ctx.violation(K_SMALL, "dim2id2iso_arbitrary_isogeny_evaluation crashes on an O0-ideal of small prime norm: find_uv returns u (or v) whose bit length is outside the range for which "
+                ctx.violation("c13:unreachable", "dim2id2iso_arbitrary_isogeny_evaluation crashes on an O0-ideal of small prime norm: find_uv returns u (or v) whose bit length is outside the range for which "
                               "fixed_degree_isogeny's `length = bits(p)+15−bits(u)` satisfies u < 2^length and indexes the strategy table (disabled asserts: 2^length − u < 0 reaches mpz_sqrt of a negative number in represent_integer_non_diag → SIGFPE, or the strategy row is out of the table)", rep)
             else:
                 ctx.violation("c13:L%d:ideal-to-isogeny-crash" % lvl, "ideal-to-isogeny translation crashed on an ideal of odd norm", rep)
@@ -209,6 +213,14 @@ def isogenies(ctx, lvl, exe, nideals):
             h = ev[0].split()
             if h[0] != "1":
                 ctx.coverage["eval_failures"] = ctx.coverage.get("eval_failures", 0) + 1
+                fu = o_fuv.split(" | ")[0].split()
+                pred = fu[0] == "1" and all(sint(x) > 0 for x in fu[1:3]) and any(fdi_rejects(sint(x).bit_length()) for x in fu[1:3])
+                if pred:
+                    ctx.violation(K_SMALL, "dim2id2iso_arbitrary_isogeny_evaluation reports failure (returns 0, no curve, no image basis) on an O0-ideal of small prime norm: find_uv returns u (or v) "
+                                  "whose bit length the range guard of fixed_degree_isogeny rejects (length = bits(p)+15−bits(u) must satisfy length+2 ≤ f, f−length < #strategies, bits(u) ≤ length) and "
+                                  "there is no retry with another (u, v): the property asks for a curve and image for every left ideal of odd norm", rep)
+                else:
+                    ctx.violation("c13:L%d:translation-failed" % lvl, "dim2id2iso_arbitrary_isogeny_evaluation returned 0 on an ideal of odd norm although u and v pass the range guard of fixed_degree_isogeny", rep)
                 continue
             A, C = (hx(h[1]), hx(h[2])), (hx(h[3]), hx(h[4]))
             if F.is_zero(C) or F.is_zero(F.sub(F.sqr(F.div(A, C)), (4, 0))):
